@@ -360,7 +360,7 @@ func TestC16DLEQ(t *testing.T) {
 	for _, si := range allSuites {
 		si := si
 		t.Run(si.name, func(t *testing.T) {
-			vlib.Check(t, si.cases([4]int{120, 120, 24, 11}, 6), func(t *rapid.T) { dleqCase(t, si) })
+			vlib.Check(t, si.cases([4]int{120, 120, 24, 11}, 4), func(t *rapid.T) { dleqCase(t, si) })
 		})
 	}
 }
@@ -579,7 +579,7 @@ func TestC16DL(t *testing.T) {
 	for _, si := range allSuites {
 		si := si
 		t.Run(si.name, func(t *testing.T) {
-			vlib.Check(t, si.cases([4]int{200, 200, 60, 30}, 6), func(t *rapid.T) { dlCase(t, si) })
+			vlib.Check(t, si.cases([4]int{200, 200, 60, 30}, 4), func(t *rapid.T) { dlCase(t, si) })
 		})
 	}
 }
@@ -963,5 +963,5 @@ func TestC16QNDLEQ(t *testing.T) {
 	if poolErr != nil {
 		t.Fatalf("SELFTEST-FAIL safe prime pool: %v", poolErr)
 	}
-	vlib.Check(t, vlib.N(350, 2000), func(t *rapid.T) { qndleqCase(t) })
+	vlib.Check(t, vlib.N(350, 1400), func(t *rapid.T) { qndleqCase(t) })
 }
